@@ -26,6 +26,10 @@ int xv_errno;
 #define errno xv_errno
 
 #ifdef XV_CBMC
+#include <stdio.h>
+int xv_snprintf(char *s, size_t size);
+#undef snprintf
+#define snprintf(s, n, ...) xv_snprintf((s), (n))
 
 /* ---- abort / assert become obligations instead of silently pruning paths */
 void abort(void)
